@@ -48,3 +48,14 @@ Definition stored_in (mode : naming) (a : str) : option str :=
 End WithParseIP.
 
 Definition uses_policy (e : nexpr) : bool := match e with NArg => false | NCall _ _ => true end.
+
+(** strings.Trim(s, cutset): what the RCPT handler applies to the text after "TO:" *)
+Fixpoint trim_left (cut : str) (s : str) : str :=
+  match s with
+  | c :: t => if mem_b c cut then trim_left cut t else s
+  | [] => []
+  end.
+Definition trim (cut : str) (s : str) : str := rev (trim_left cut (rev (trim_left cut s))).
+
+(** the address the handler hands to NewRecipient for `RCPT TO:<a>` *)
+Definition rcpt_address (a : str) : str := trim rcpt_handler_trim_cutset (60 :: a ++ [62]).
